@@ -44,6 +44,12 @@ def matrix_configs():
 def tree_digest(repo):
     h = hashlib.sha256()
     n = 0
+    # the extractor itself is part of the key: a changed driver must not reuse old facts
+    try:
+        with open(os.path.join(os.path.dirname(os.path.abspath(__file__)), '..', 'engine', 'factgen', 'src', 'main.rs'), 'rb') as fh:
+            h.update(hashlib.sha256(fh.read()).digest())
+    except OSError:
+        pass
     for root, dirs, files in os.walk(repo):
         dirs[:] = sorted(d for d in dirs if d not in SKIP_DIRS)
         rel = os.path.relpath(root, repo)
